@@ -356,12 +356,18 @@ Definition fp_excl : fpmap := Eval vm_compute in compute dir_excl tbl.
 Definition fp_excl_os : fpmap := Eval vm_compute in compute dir_excl_os tbl.
 
 (** ** lookups used by the correspondence shards *)
-Definition fp_of_name (nm : String.string) : option N := match id_of nm with Some p => Some (fget fp_full p) | None => None end.
-Fixpoint fp_of_names (l : list String.string) : option N :=
+(** the footprint a dynamic experiment is compared with: the full closure; for a program made of anchored components only,
+    the closure with the named root causes blanked (the experiments hand them plain, deterministic problem objects) *)
+Definition smem (s : String.string) (l : list String.string) : bool := existsb (String.eqb s) l.
+Definition fp_of_name (anchored : bool) (nm : String.string) : option N :=
+  match id_of nm with Some p => Some (fget (if anchored then fp_excl else fp_full) p) | None => None end.
+Fixpoint fp_of_names_in (anchored : bool) (l : list String.string) : option N :=
   match l with
   | [] => Some 0
-  | s :: t => match fp_of_name s, fp_of_names t with Some a, Some b => Some (N.lor a b) | _, _ => None end
+  | s :: t => match fp_of_name anchored s, fp_of_names_in anchored t with Some a, Some b => Some (N.lor a b) | _, _ => None end
   end.
+Definition fp_of_names (l : list String.string) : option N :=
+  fp_of_names_in (forallb (fun s => smem s must_be_explicit) l) l.
 
 (** what a run may touch, derived from the static footprint.  mode: true = the caller supplied a generator *)
 Definition may_touch_np (explicit : bool) (m : N) : bool :=
@@ -374,14 +380,16 @@ Definition may_touch_os (m : N) : bool := has OS m.
 Record obs := mkobs { o_py : bool; o_np : bool; o_ex : bool; o_repro : bool }.
 (** dynamic observation against static footprint:
     - every stream that was seen to change must be in the footprint;
-    - a footprint without OS promises reproducibility: it must have been observed;
+    - reproducibility is promised after seeding when the footprint avoids the OS, and with an explicit generator when the
+      footprint is explicit-only: it must then have been observed;
     - an explicit-only footprint promises isolation: neither global stream may have changed. *)
+Definition promise_repro (explicit : bool) (m : N) : bool := if explicit then sub m EXPLICIT_OK else negb (has OS m).
 Definition obs_agree (explicit : bool) (names : list String.string) (o : obs) : bool :=
   match fp_of_names names with
   | None => false
   | Some m =>
     implb (o_py o) (may_touch_py m) && implb (o_np o) (may_touch_np explicit m) && implb (o_ex o) (may_touch_ex explicit m)
-    && implb (negb (may_touch_os m)) (o_repro o)
+    && implb (promise_repro explicit m) (o_repro o)
     && implb (explicit && sub m EXPLICIT_OK) (negb (o_py o) && negb (o_np o))
   end.
 End FP.
